@@ -69,10 +69,10 @@ def make_plans(chk, rng):
             hows = list(HOWS[kind])
             rng.shuffle(hows)
             for ci, ms in enumerate(chunks):
-                plans.append((kind, ms, [hows[ci % len(hows)]], rng.sample(DIALECTS, 2), 4, 7, 1))
+                plans.append((kind, ms, [hows[ci % len(hows)]], [DIALECTS[(ci + len(plans)) % len(DIALECTS)]], 4, 7, 1))
         # deeper trees with repeated methods
-        for kind in rng.sample(kinds, 3):
-            plans.append((kind, rng.sample(METHODS[kind], 2), [rng.choice(HOWS[kind])], rng.sample(DIALECTS, 1), 5, 8, 2))
+        for kind in rng.sample(kinds, 2):
+            plans.append((kind, rng.sample(METHODS[kind], 2), [], rng.sample(DIALECTS, 1), 5, 7, 2))
     return plans
 
 
@@ -134,7 +134,7 @@ def main(chk):
         w = max(walks, key=len)
         samples.append(dict(kind=kind, walk=["%s(%d,%s)" % (g.edges[ei][1]["a"], g.edges[ei][1]["n"], g.edges[ei][1]["x"]) for ei in w]))
     for kind in ("select", "orm", "query", "insert", "update", "delete"):
-        for need in ("Derive", "Copy", "Compile"):
+        for need in ("Derive", "Copy", "Compile"):      # (every kind has at least one run with a copy operation)
             if not any(k.startswith(kind + ":" + need) for k in cov):
                 chk.machinery("vacuous: no %s edge for kind %s" % (need, kind))
     return chk.finish(
